@@ -145,7 +145,7 @@ func (s *PfcpServer) main(wg *sync.WaitGroup) {
 					s.log.Debugf("rcvCh: rxtr[%s] req no need to dispatch", trID)
 					continue
 				}
-				err = s.reqDispacher(msg, rcvPkt.RemoteAddr)
+				err = s.dispatch(func() error { return s.reqDispacher(msg, rcvPkt.RemoteAddr) })
 				if err != nil {
 					s.log.Errorln(err)
 					s.log.Tracef("ignored undecodable message:\n%+v", hex.Dump(rcvPkt.Buf))
@@ -158,7 +158,7 @@ func (s *PfcpServer) main(wg *sync.WaitGroup) {
 					continue
 				}
 				req := tx.recv(msg)
-				err = s.rspDispacher(msg, rcvPkt.RemoteAddr, req)
+				err = s.dispatch(func() error { return s.rspDispacher(msg, rcvPkt.RemoteAddr, req) })
 				if err != nil {
 					s.log.Errorln(err)
 					s.log.Tracef("ignored undecodable message:\n%+v", hex.Dump(rcvPkt.Buf))
@@ -183,6 +183,18 @@ func (s *PfcpServer) main(wg *sync.WaitGroup) {
 			}
 		}
 	}
+}
+
+// dispatch runs the handler of one received message. Decoding a peer's IEs can
+// panic (go-pfcp accessors index truncated or inconsistent IEs out of range); such
+// a message is dropped with an error instead of taking the whole server down.
+func (s *PfcpServer) dispatch(handler func() error) (err error) {
+	defer func() {
+		if p := recover(); p != nil {
+			err = errors.Errorf("panic while handling message: %v\n%s", p, string(debug.Stack()))
+		}
+	}()
+	return handler()
 }
 
 func (s *PfcpServer) receiver(wg *sync.WaitGroup) {
